@@ -27,11 +27,15 @@ def main():
     wt = f'/tmp/seedverify{worker}'
     if not os.path.exists(wt):
         subprocess.check_call(['git', '-C', '/repo', 'worktree', 'add', '-q', '--detach', wt, 'HEAD'])
-        shutil.copytree('/repo/target', wt + '/target', dirs_exist_ok=True)
+        warm = os.environ.get('SEED_WARM_TARGET')
+        if warm and os.path.isdir(warm):
+            shutil.move(warm, wt + '/target')
+        else:
+            shutil.copytree('/repo/target', wt + '/target', dirs_exist_ok=True)
     results = []
     for pid in props:
-        for x in ('A', 'B'):
-            src = f'/tmp/seed/{pid}'
+        for x in os.environ.get('SEED_LETTERS', 'AB'):
+            src = os.environ.get('SEED_SRC', '/tmp/seed') + f'/{pid}'
             diff = f'{src}/seed_{x}.diff'
             demo = f'{src}/tests/seed_{x}.rs'
             if not (os.path.exists(diff) and os.path.exists(demo)):
@@ -59,7 +63,7 @@ def main():
                    'suite_pass_count': len(ok)}
             results.append(res)
             if good:
-                dst = f'/verif/seeded/{pid}-{x}'
+                dst = f"/verif/seeded/{pid}-{os.environ.get('SEED_PREFIX', '')}{x}"
                 os.makedirs(dst, exist_ok=True)
                 shutil.copy(diff, f'{dst}/patch.diff')
                 shutil.copy(demo, f'{dst}/demo.rs')
@@ -67,7 +71,7 @@ def main():
                 if os.path.exists(md):
                     shutil.copy(md, f'{dst}/notes.md')
                 tail = [l for l in out1.splitlines() if 'panicked' in l or 'assertion' in l or 'test result' in l][:6]
-                meta = {'id': f'{pid}-{x}', 'property': pid, 'origin': 'independent sub-agent given only the property text and a scratch worktree',
+                meta = {'id': f"{pid}-{os.environ.get('SEED_PREFIX', '')}{x}", 'property': pid, 'origin': 'independent sub-agent given only the property text and a scratch worktree',
                         'base_commit': subprocess.check_output(['git', '-C', '/repo', 'rev-parse', '--short', 'HEAD'], text=True).strip(),
                         'needs_to_manifest': 'see notes.md',
                         'ran': [f'cargo test --offline --test seed_{x}   (unchanged tree) -> pass',
